@@ -238,6 +238,7 @@ type Party struct {
 	CancelOnEnable    int32
 	RequestsCancelled int64
 	ctxSeq            int
+	fundLag           func()
 	ctxCancels        map[int]context.CancelFunc
 	OnPropose   ProposalPolicy
 	// ProposalsSeen records every invocation of the proposal handler.
@@ -254,6 +255,28 @@ type Party struct {
 	NoWatch bool
 	Timeout time.Duration
 }
+
+// lagFunder lets a party's funding call return late (the deposit is on the ledger, the party's
+// client learns it later - a slow node or chain connection).
+type lagFunder struct {
+	inner channel.Funder
+	p     *Party
+}
+
+func (f *lagFunder) Fund(ctx context.Context, req channel.FundingReq) error {
+	err := f.inner.Fund(ctx, req)
+	f.p.mu.Lock()
+	lag := f.p.fundLag
+	f.p.mu.Unlock()
+	if lag != nil {
+		lag()
+	}
+	return err
+}
+
+// SetFundLag installs a function that runs after each of the party's funding calls completed and
+// before the result reaches its client.
+func (p *Party) SetFundLag(f func()) { p.mu.Lock(); p.fundLag = f; p.mu.Unlock() }
 
 // NewParty creates a client with the given on-chain funds per asset.
 func (w *World) NewParty(name string, funds int64) *Party {
@@ -280,7 +303,7 @@ func (w *World) NewParty(name string, funds int64) *Party {
 		panic(err)
 	}
 	p.Watcher = lw
-	c, err := client.New(p.Wire, w.Bus, w.Ledger.NewFunder(addr), p.Adj, map[wallet.BackendID]wallet.Wallet{gen.B: wal}, &watchWrap{inner: lw, p: p})
+	c, err := client.New(p.Wire, w.Bus, &lagFunder{inner: w.Ledger.NewFunder(addr), p: p}, p.Adj, map[wallet.BackendID]wallet.Wallet{gen.B: wal}, &watchWrap{inner: lw, p: p})
 	if err != nil {
 		panic(err)
 	}
